@@ -47,6 +47,7 @@ C['C03']=dict(mutants=[
  m('components-prealloc',SCDX,'\tcomponents := []cdx.Component{}\n','\tcomponents := make([]cdx.Component, 0, len(s.componentsDict))\n'),
 ])
 C['C04']=dict(mutants=[
+ m('sniffer-slices-unchecked',SNIFF,'\tstringValue := string(data)\n\n\tif strings.Contains(stringValue, "SPDXVersion:") {','\tstringValue := string(data)\n\tif stringValue[:4] == "SPDX" {\n\t\tstate.Encoding = "text"\n\t}\n\n\tif strings.Contains(stringValue, "SPDXVersion:") {','absent-part-guard'),
  m('sniffer-nil-map',SNIFF,'\tstates := make(sniffStates, len(sniffFormats))\n','\tvar states sniffStates\n','map-write-initialised'),
  m('drop-license-nil-guard',UCDX,'\t\tlicenseID := ""\n\t\tif lc.License != nil {\n\t\t\tlicenseID = lc.License.ID\n\t\t}\n\t\tif lc.Expression == "" && licenseID == "" {\n\t\t\tcontinue\n\t\t}\n\n\t\tif lc.Expression != "" {','\t\tlicenseID := lc.License.ID\n\t\tif lc.Expression == "" && licenseID == "" {\n\t\t\tcontinue\n\t\t}\n\n\t\tif lc.Expression != "" {','absent-part-guard'),
  m('drop-file-nil-guard',U23,'\t\tif f == nil {\n\t\t\tcontinue\n\t\t}\n',' ','absent-part-guard'),
@@ -54,11 +55,14 @@ C['C04']=dict(mutants=[
  m('stale-error',UCDX,'\tmd := &sbom.Metadata{\n','\tif bom.Version < 0 {\n\t\treturn nil, err\n\t}\n\tmd := &sbom.Metadata{\n','result-discipline'),
  m('fatal-on-bad-date',U23,'\t\tlogrus.Warnf("invalid time format in %s", date)\n','\t\tlogrus.Fatalf("invalid time format in %s", date)\n','no-process-exit'),
 ],benign=[
+ m('sniffer-slices-checked',SNIFF,'\tstringValue := string(data)\n\n\tif strings.Contains(stringValue, "SPDXVersion:") {','\tstringValue := string(data)\n\tif len(stringValue) >= 4 && stringValue[:4] == "SPDX" {\n\t\tstate.Encoding = "text"\n\t}\n\n\tif strings.Contains(stringValue, "SPDXVersion:") {'),
+
  m('states-literal',SNIFF,'\tstates := make(sniffStates, len(sniffFormats))\n','\tstates := sniffStates{}\n'),
 
  m('guard-as-early-continue',UCDX,'\tif bom.Components != nil {\n','\tif bom.Components != nil && len(*bom.Components) >= 0 {\n'),
 ])
 C['C05']=dict(mutants=[
+ m('detected-format-remembered',RD,'\t\treturn "", fmt.Errorf("detecting format: %w", err)\n\t}\n\treturn format, nil','\t\treturn "", fmt.Errorf("detecting format: %w", err)\n\t}\n\tr.Options.Format = format\n\treturn format, nil','detection-leaves-reader-unchanged'),
  m('seedless-generator',UCDX,'node.Id = sbom.NewNodeIdentifier("auto", fmt.Sprintf("%09d", *cc))','node.Id = sbom.NewNodeIdentifier("auto")','counter-seed'),
  m('conditional-increment',UCDX,'\t(*cc)++\n\tnode := &sbom.Node{','\tif c.BOMRef == "" {\n\t\t(*cc)++\n\t}\n\tnode := &sbom.Node{','counter-seed'),
  m('root-from-bomref',UCDX,'\t\tRootElements: []string{node.Id},','\t\tRootElements: []string{component.BOMRef},','verbatim-identifiers'),
@@ -99,6 +103,7 @@ C['C08']=dict(mutants=[
  m('rename-index',NL,'\t// Build a catalog of the elements ids\n\tnodeIndex := nl.indexNodes()','\t// Build a catalog of the elements ids (unchanged)\n\tnodeIndex := nl.indexNodes()'),
 ])
 C['C09']=dict(mutants=[
+ m('union-shares-roots',NL,'\t\tEdges:        copyEdgeList(nl.Edges),\n\t\tRootElements: slices.Clone(nl.RootElements),\n\t}\n\n\t// Copy all nodes','\t\tEdges:        copyEdgeList(nl.Edges),\n\t\tRootElements: nl.RootElements,\n\t}\n\n\t// Copy all nodes','union-operands-unchanged'),
  m('add-roots-vs-node-index',NL,'\trootElements := nl.indexRootElements()\n\tfor _, id := range nl2.RootElements {','\trootElements := nl.indexNodes()\n\tfor _, id := range nl2.RootElements {','loop-totality'),
  m('update-wrong-field',NODE,'\tif n2.UrlHome != "" {\n\t\tn.UrlHome = n2.UrlHome\n\t}','\tif n2.UrlHome != "" {\n\t\tn.UrlHome = n2.UrlDownload\n\t}','merge-precedence'),
  m('update-inverted-test',NODE,'\tif n2.Version != "" {\n\t\tn.Version = n2.Version\n\t}\n\tif n2.FileName != "" {','\tif n2.Version == "" {\n\t\tn.Version = n2.Version\n\t}\n\tif n2.FileName != "" {','merge-precedence'),
@@ -144,6 +149,7 @@ C['C13']=dict(mutants=[
  m('slices-sort',NODE,'\tsort.Strings(pairs)\n\treturn strings.Join(pairs, ":")','\tslices.Sort(pairs)\n\treturn strings.Join(pairs, ":")'),
 ])
 C['C14']=dict(mutants=[
+ m('removed-filtered-in-place',DIFF,'func diffSlice[T comparable](arr1, arr2 []T) (added, removed []T, count int) {\n\tadded = []T{}\n\tremoved = []T{}\n','func diffSlice[T comparable](arr1, arr2 []T) (added, removed []T, count int) {\n\tadded = []T{}\n\tremoved = arr1[:0]\n','diff-operands-unchanged'),
  m('extref-hash-by-position',EXT,'\t\tfor _, algo := range algos {\n\t\t\thashes = append(hashes, fmt.Sprintf("%d:%s", algo, e.Hashes[int32(algo)]))','\t\tfor i, algo := range algos {\n\t\t\thashes = append(hashes, fmt.Sprintf("%d:%s", algo, e.Hashes[int32(i)]))','schema-map-key'),
  m('stanza-wrong-dest',DIFF,'\tnd.Added.UrlHome = a\n','\tnd.Added.UrlDownload = a\n','diff-stanza'),
  m('stanza-swapped-results',DIFF,'\tnd.Added.Version = a\n\tnd.Removed.Version = r\n','\tnd.Added.Version = r\n\tnd.Removed.Version = a\n','diff-stanza'),
@@ -162,6 +168,7 @@ C['C15']=dict(mutants=[
  m('extra-root',NL,'\tnodelist.RootElements = append(nodelist.RootElements, id)\n\tnodelist.cleanEdges()','\tnodelist.RootElements = append(nodelist.RootElements, nl.RootElements...)\n\tnodelist.cleanEdges()','traversal-guard'),
 ],benign=[])
 C['C16']=dict(mutants=[
+ m('index-key-lowercased',NL,'\t\t\ts := fmt.Sprintf("%d:%s", algo, hashVal)\n\t\t\tret[s] = append(ret[s], n)','\t\t\ts := fmt.Sprintf("%d:%s", algo, strings.ToLower(hashVal))\n\t\t\tret[s] = append(ret[s], n)','constant-agreement'),
  m('rootnodes-early-break',NL,'\t\t\tret = append(ret, nl.Nodes[i])\n\t\t}\n\t}\n\t// TODO(ehandling)','\t\t\tret = append(ret, nl.Nodes[i])\n\t\t\tif len(ret) == len(index) {\n\t\t\t\tbreak\n\t\t\t}\n\t\t}\n\t}\n\t// TODO(ehandling)','loop-totality'),
  m('purl-tiebreak-first-wins',NL,'\t\t\tif tp := n.Purl(); tp != "" && tp == testPurl {\n\t\t\t\tfoundByPurl = append(foundByPurl, n)\n\t\t\t}','\t\t\tif tp := n.Purl(); tp != "" && tp == testPurl && len(foundByPurl) == 0 {\n\t\t\t\tfoundByPurl = append(foundByPurl, n)\n\t\t\t}',''),
  m('byname-compares-id',NL,'\t\tif nl.Nodes[i].Name == name {','\t\tif nl.Nodes[i].Id == name {','lookup-criterion'),
@@ -171,12 +178,14 @@ C['C16']=dict(mutants=[
  m('ambiguity-swallowed',NL,'\t\tif len(pindex[testPurl]) == 1 {\n\t\t\treturn pindex[testPurl][0], nil\n\t\t}\n\t\treturn nil, ErrorMoreThanOneMatch','\t\treturn pindex[testPurl][0], nil','no-map-order-selection'),
 ],benign=[])
 C['C17']=dict(mutants=[
+ m('registry-check-then-store',WR,'func RegisterSerializer(format formats.Format, s native.Serializer) {\n\tensureSerializersInitialized()\n\tserializers.Store(format, s)','func RegisterSerializer(format formats.Format, s native.Serializer) {\n\tensureSerializersInitialized()\n\tif _, ok := serializers.Load(format); ok && s == nil {\n\t\treturn\n\t}\n\tserializers.Store(format, s)','atomic-update-not-lost'),
  m('lookup-unlocked',RD,'\tregMtx.RLock()\n\tdefer regMtx.RUnlock()\n','','package-state'),
  m('register-read-lock',RD,'\tregMtx.Lock()\n\tunserializers[format] = u\n\tregMtx.Unlock()','\tregMtx.RLock()\n\tunserializers[format] = u\n\tregMtx.RUnlock()','package-state'),
  m('unlock-missing-on-path',RD,'\tregMtx.Lock()\n\tdelete(unserializers, format)\n\tregMtx.Unlock()','\tregMtx.Lock()\n\tif format == "" {\n\t\treturn\n\t}\n\tdelete(unserializers, format)\n\tregMtx.Unlock()','lock-pairing'),
  m('shared-default-published',WR,'\t\tOptions: newDefaultOptions(),','\t\tOptions: defaultOptions,','published-default'),
 ],benign=[])
 C['C18']=dict(mutants=[
+ m('format-options-merged-into-callers-map',WOPT,'\to.formatOptions[keyVal] = opts\n','\tif add, ok := opts.(map[string]interface{}); ok {\n\t\tif cur, ok := o.formatOptions[keyVal].(map[string]interface{}); ok && cur != nil {\n\t\t\tfor k, v := range add {\n\t\t\t\tcur[k] = v\n\t\t\t}\n\t\t\treturn\n\t\t}\n\t}\n\to.formatOptions[keyVal] = opts\n','option-writes-own-storage'),
  m('per-call-arg-written',WR,'\tformat := o.Format\n\tif o.Format == "" {\n\t\tformat = w.Options.Format\n\t}','\tif o.Format == "" {\n\t\to.Format = w.Options.Format\n\t}\n\tformat := o.Format','per-call-no-argument-write'),
  m('option-writes-global',WOPT,'\t\tw.Options.Format = f\n','\t\tw.Options.Format = f\n\t\tdefaultOptions.Format = f\n','option-writes-instance-only'),
  m('per-call-retained',WR,'\tformat := o.Format\n\tif o.Format == "" {\n\t\tformat = w.Options.Format\n\t}','\tformat := o.Format\n\tif o.Format == "" {\n\t\tformat = w.Options.Format\n\t} else {\n\t\tw.Options = o\n\t}','per-call-no-receiver-write'),
@@ -184,6 +193,7 @@ C['C18']=dict(mutants=[
  m('receiver-format-options',RD,'o.GetFormatOptions(unserializer),','r.Options.GetFormatOptions(unserializer),','per-call-reads-argument'),
 ],benign=[])
 C['C19']=dict(mutants=[
+ m('decode-error-shadowed',FS,'\tif err := proto.Unmarshal(data, bom); err != nil {\n\t\treturn nil, fmt.Errorf("unmarshaling protobom data: %w", err)\n\t}','\tif err := proto.Unmarshal(data, bom); err != nil {\n\t\terr = fmt.Errorf("unmarshaling protobom data: %w", err)\n\t}','retrieve-validates'),
  m('wrapper-swallows-error',WR,'\tif err := w.Storage.Store(bom, o.StoreOptions); err != nil {\n\t\treturn fmt.Errorf("calling backend store: %w", err)\n\t}','\tif err := w.Storage.Store(bom, o.StoreOptions); err != nil {\n\t\treturn nil\n\t}','wrapper-propagates-error'),
  m('store-shortcut',FS,'\t// Write the data to a temporary file in the same directory and rename it\n','\tif st, err := os.Stat(finalPath); err == nil && st.Size() == int64(len(out)) {\n\t\treturn nil\n\t}\n\t// Write the data to a temporary file in the same directory and rename it\n','store-success-publishes'),
  m('decoder-sees-prefix',FS,'\tif err := proto.Unmarshal(data, bom); err != nil {','\tif err := proto.Unmarshal(data[:min(len(data), 4<<20)], bom); err != nil {','retrieve-reads-whole-entry'),
